@@ -25,7 +25,7 @@ IDS="$@"
 if [ "$IDS" = "all" ]; then IDS="C01 C02 C03 C04 C05 C06 C07 C08 C09 C10 C11 C12 C13 C14 C15 C16 C17 C18 C19 C20"; fi
 CAUGHT=""
 for id in $IDS; do
-  VERIF_REPO=$WT VERIF_OUT=$OUT VERIF_COVER=0 timeout 3000 /verif/check $id ${TIER:-quick} > "$OUT/check_$id.txt" 2>&1; E=$?
+  VERIF_REPO=$WT VERIF_OUT=$OUT VERIF_COVER=0 timeout 3000 ${VERIF_AT:-/verif}/check $id ${TIER:-quick} > "$OUT/check_$id.txt" 2>&1; E=$?
   if [ $E -ne 0 ]; then CAUGHT="$CAUGHT $id(exit$E)"; fi
 done
 echo "$NAME: caught by:${CAUGHT:- NONE}"
